@@ -306,6 +306,7 @@ type world struct {
 	rej    int
 	nconn  int
 	hits   []hit
+	late   int    // waits that ran into the ceiling
 	dead   string // harness-level failure text, reported in every following line
 }
 
@@ -363,7 +364,13 @@ func (w *world) ended(cs *cstate, loops map[string]int) bool {
 
 // waitFor polls cond (with a quiescence check in the pipe modes) up to the ceiling.
 func (w *world) waitFor(cond func() bool) {
-	deadline := time.Now().Add(ceiling)
+	// the first expected observation that does not arrive costs the full ceiling; after that the world is known
+	// to deviate (the line is reported as observed) and later waits in the same world are cut short
+	d := ceiling
+	if w.late > 0 {
+		d = 150 * time.Millisecond
+	}
+	deadline := time.Now().Add(d)
 	sleep := 200 * time.Microsecond
 	for {
 		if w.mode != "tcp" {
@@ -373,6 +380,7 @@ func (w *world) waitFor(cond func() bool) {
 			}
 		}
 		if time.Now().After(deadline) {
+			w.late++
 			return
 		}
 		if cond() {
